@@ -83,8 +83,9 @@ class Run:
         self.log_lines = []
         self.known = load_known(prop)
         import glob
-        for f in glob.glob(os.path.join(EVIDENCE, 'replay', f'{prop}-*.case')):
-            os.remove(f)
+        if not replay:
+            for f in glob.glob(os.path.join(EVIDENCE, 'replay', f'{prop}-*.case')):
+                os.remove(f)
 
     # ------------------------------------------------------------------ logging
     def log(self, *a):
